@@ -31,8 +31,8 @@
 EXTENDS CliApp
 
 CONSTANTS Progs, Depth
-VARIABLES prog, F, docs, hist
-vars == <<prog, F, docs, hist>>
+VARIABLES prog, gfull, F, docs, hist
+vars == <<prog, gfull, F, docs, hist>>
 
 St(op, a, b, c) == [op |-> op, a |-> a, b |-> b, c |-> c]
 
@@ -100,6 +100,9 @@ ProgUneval1 == {WithNames(BaseUneval, 1)}
 ProgEmpty1 == {WithNames(BaseEmpty, 1)}
 ProgNoProd1 == {WithNames(BaseNoProd, 1)}
 ProgClash == {WithNames(BaseClashPair, 1), WithNames(BaseClashCmd, 1)}
+ProgsBfs == ProgSmall1 \cup ProgSmall3 \cup ProgMixed3 \cup ProgTwo2 \cup ProgTwo4 \cup ProgUneval1 \cup ProgEmpty1 \cup ProgNoProd1 \cup ProgClash
+ProgsTwice == ProgSmall1 \cup ProgTwo4
+ProgsTwiceMore == ProgSmall3 \cup ProgTwo2 \cup ProgMixed3
 
 (* ---------------- tokens and invocations ---------------------------------------- *)
 Tk(n, form, dash, v, vi) == [k |-> "flag", n |-> n, form |-> form, dash |-> dash, v |-> v, vi |-> vi]
@@ -117,7 +120,7 @@ File == <<"bare", "graph">>
 Modes == {Code, File}
 
 \* the flags of the program's parameters (static: the same in both modes) as <<name, kind>>
-PF == LET gr == Graph(prog) IN {<<prog.flag[n + 1], gr.type[n]>> : n \in ParamFlagNodes(prog, gr)}
+PF == LET gr == gfull IN {<<prog.flag[n + 1], gr.type[n]>> : n \in ParamFlagNodes(prog, gr)}
 Vals(kd) == CASE kd = 1 -> {0, 1, 3} [] kd = 4 -> {0, 1, 2} [] OTHER -> {0, 2, 3, 0 - 1}
 ParamToks == UNION {{ParamTok(f[1], f[2], v, fd) : v \in Vals(f[2]), fd \in Forms} : f \in PF}
              \cup {Tk(f[1], "bare", 2, "", 1) : f \in {x \in PF : x[2] = 4}}
@@ -170,10 +173,11 @@ NewToks == {Tk(n, "sp", 2, NewVal(v), v) : n \in {"name", "version", "descriptio
            \cup {Tk("name", "eq", 1, NewVal(0), 0)}
 NewPool ==
     {Inv(m, "new", <<t>>) : m \in Modes \cup {<<"bare", "none">>}, t \in NewToks}
-    \cup {Inv(<<"bare", "none">>, "new", <<t1, t2, OutTok(k, Std)>>) : t1 \in NewToks, t2 \in NewToks, k \in {7, 8}}
+    \cup {Inv(<<"bare", "none">>, "new", <<t1, t2, OutTok(k, Std)>>) :
+              t1 \in {t \in NewToks : t.n \in {"name", "author"}}, t2 \in {t \in NewToks : t.n \in {"version", "description", "name"}}, k \in {7, 8}}
 \* (G) the same application behind the editor's HTTP API (loaded from the saved document: node numbers are those of the model)
 HttpInvs ==
-    LET gr == Graph(prog)
+    LET gr == gfull
         ns == ParamFlagNodes(prog, gr)
         tok(n, v) == Tk(HE!NodeName(n), "", 0, ValJson(gr.type[n], v), v)
     IN {[mode |-> "bare", gf |-> "graph", gfa |-> GraphArgs["graph"], cmd |-> "@http", toks |-> <<>>]}
@@ -183,7 +187,7 @@ HttpInvs ==
 Pool == PathPool \cup ParamPool \cup JunkPool \cup ArgPool \cup DocPool \cup NewPool \cup HttpInvs
 
 (* ---------------- the machine ---------------------------------------------------- *)
-PlanOf(inv) == Plan(prog, F, inv, NoHdr)
+PlanOf(inv) == PlanG(prog, gfull, F, inv, NoHdr)
 Do(inv) ==
     LET pl == IF inv.cmd = "@http" THEN [class |-> "http", files |-> {}, dirs |-> {}, asg |-> <<>>] ELSE PlanOf(inv)
         written == {f.p : f \in pl.files}
@@ -192,20 +196,20 @@ Do(inv) ==
     IN /\ F' = (IF pl.class = "ok" THEN ShapeAfter(F, pl) ELSE F)
        /\ docs' = {d \in docs : d.p \notin written} \cup newdocs
        /\ hist' = Append(hist, inv)
-       /\ prog' = prog
+       /\ prog' = prog /\ gfull' = gfull
 
-Init == prog \in Progs /\ F = Shape0 /\ docs = {} /\ hist = <<>>
+Init == prog \in Progs /\ gfull = Graph(prog) /\ F = Shape0 /\ docs = {} /\ hist = <<>>
 Next == Len(hist) < Depth /\ \E inv \in Pool : Do(inv)
 Spec == Init /\ [][Next]_vars
 
 \* class-weighted random walks: writing commands, parameter flags, junk, arguments, documents, new, http
 SimNext ==
     /\ Len(hist) < Depth
-    /\ \E cls \in 1..9 :
+    /\ \E cls \in {RandomElement(1..9)} :       \* (bound once: RandomElement is re-drawn at every evaluation)
           LET S == CASE cls \in {1, 2} -> PathPool [] cls \in {3, 4} -> ParamPool [] cls = 5 -> JunkPool [] cls = 6 -> ArgPool
                      [] cls = 7 -> (IF docs = {} THEN {i \in NewPool : Len(i.toks) = 3} ELSE DocPool) [] cls = 8 -> NewPool
                      [] OTHER -> HttpInvs
-          IN S # {} /\ Do(RandomElement(S))
+          IN \E T \in {IF S = {} THEN PathPool ELSE S} : Do(RandomElement(T))
 SimSpec == Init /\ [][SimNext]_vars
 
 \* the same place written twice with different values (replace; a shorter text after a longer one), then read back
